@@ -172,3 +172,28 @@ def declare_send(E):
                    "eight_name_lists_sent": "ghost('adv_calls') == 8",
                },
                returns="none", raises={"EOFError": "True", "OSError": "True", "SSHException": "True"})
+
+
+def filter_variant(E, kind):
+    """Transport._filter_algorithm(kind), the helper behind every preferred_* property: the class's preference list for
+    the category minus what disabled_algorithms says NOW (read at every call - a transport's configuration may change
+    between two key exchanges)"""
+    T_ = "paramiko.transport.Transport."
+    E2 = type(E)()
+    E2.auto_opaque = True
+    E2.opaque_iter = {"NameList": "str"}
+    E2.declare_ghost(probe="str", disabled_now="int")
+    E2.declare_class("paramiko.transport.Transport", {"disabled_algorithms": "opaque:DisabledMap",
+                                                      "_preferred_" + kind: "opaque:NameList"})
+    E2.contract("NameList.__contains__", argnames=["self", "x"], returns="bool",
+                cases=[dict(name="membership", when="True", result="fn('in_list', 'bool', opaque_id(self), x)")])
+    # what the table says at this moment for the category: a function of the table object and the key
+    E2.contract("DisabledMap.get", argnames=["self", "k", "default"], returns="opaque:NameList",
+                ensures=["opaque_id(result) == fn('disabled_list', 'int', opaque_id(self), k)"])
+    c = dict(params={"type_": "const:%r" % kind}, returns="opaque:Filtered", raises={}, modifies=[],
+             ensures={"the_class_preference_list_minus_what_is_disabled_now":
+                      "(ghost('probe') in result) == (fn('in_list', 'bool', opaque_id(self._preferred_%s), ghost('probe'))"
+                      " and not fn('in_list', 'bool', fn('disabled_list', 'int', opaque_id(self.disabled_algorithms), type_), ghost('probe')))" % kind})
+    return (T_ + "_filter_algorithm", "filter-" + kind, dict(c, **{
+        "+replace": True, "+contracts": dict(E2.contracts), "+fields": {k: dict(d["fields"]) for k, d in E2.classdecl.items()},
+        "+engine": {"auto_opaque": True, "opaque_iter": dict(E2.opaque_iter), "ghost_types": dict(E2.ghost_types)}}))
